@@ -293,7 +293,81 @@ def reference_table(src_dir: Path) -> dict:
             if sg is not None:
                 entry["locals"] = [[v, list(s)] for v, s in sg.items()]
             table[f"{p.stem}:{qn}"] = entry
+        table[f"{p.stem}:<module>"] = {"names": sorted(_module_level_names(tree))}
     return table
+
+
+def _module_level_names(tree: ast.Module) -> Set[str]:
+    out: Set[str] = set()
+    for st in tree.body:
+        todo = [st]
+        while todo:
+            x = todo.pop()
+            if isinstance(x, (ast.Assign, ast.AnnAssign, ast.AugAssign)):
+                for t in (x.targets if isinstance(x, ast.Assign) else [x.target]):
+                    out.update(n.id for n in ast.walk(t) if isinstance(n, ast.Name))
+            elif isinstance(x, (ast.If, ast.Try, ast.With)):
+                todo.extend(ch for ch in ast.iter_child_nodes(x) if isinstance(ch, (ast.stmt, ast.ExceptHandler)))
+            elif isinstance(x, ast.ExceptHandler):
+                todo.extend(x.body)
+    return out
+
+
+def _fold_new_module_constants(tree: ast.Module, known: Set[str]) -> int:
+    """A literal given a name (`_PREFIX = "g_"` at module level, bound once, never re-bound, absent from the reference tree) is that literal wherever it is read."""
+    import copy
+    cands = {}
+    counts: Dict[str, int] = {}
+    for st in tree.body:
+        if isinstance(st, (ast.Assign, ast.AnnAssign)):
+            tg = st.targets if isinstance(st, ast.Assign) else [st.target]
+            for t in tg:
+                for n in ast.walk(t):
+                    if isinstance(n, ast.Name):
+                        counts[n.id] = counts.get(n.id, 0) + 1
+            v = st.value
+            if len(tg) == 1 and isinstance(tg[0], ast.Name) and v is not None:
+                ok = isinstance(v, ast.Constant) or (isinstance(v, ast.Tuple) and all(isinstance(e, (ast.Constant, ast.Name)) for e in v.elts)) \
+                    or (isinstance(v, ast.UnaryOp) and isinstance(v.op, ast.USub) and isinstance(v.operand, ast.Constant))
+                if ok and tg[0].id not in known:
+                    cands[tg[0].id] = v
+    stored_elsewhere: Set[str] = set()
+    for n in ast.walk(tree):
+        if isinstance(n, ast.Global):
+            stored_elsewhere.update(n.names)
+    cands = {k: v for k, v in cands.items() if counts.get(k) == 1 and k not in stored_elsewhere}
+    if not cands:
+        return 0
+    k = 0
+
+    def visit(node, shadow: Set[str]):
+        nonlocal k
+        for field, val in ast.iter_fields(node):
+            items = val if isinstance(val, list) else [val]
+            for idx, ch in enumerate(items):
+                if not isinstance(ch, ast.AST):
+                    continue
+                if isinstance(ch, _FUNC + (ast.Lambda,)):
+                    sh = set(shadow)
+                    sh.update(a.arg for a in ast.walk(ch.args) if isinstance(a, ast.arg))
+                    body = ch.body if isinstance(ch.body, list) else [ch.body]
+                    for b in body:
+                        for m in ast.walk(b):
+                            if isinstance(m, ast.Name) and isinstance(m.ctx, (ast.Store, ast.Del)):
+                                sh.add(m.id)
+                    visit(ch, sh)
+                    continue
+                if isinstance(ch, ast.Name) and isinstance(ch.ctx, ast.Load) and ch.id in cands and ch.id not in shadow:
+                    new = ast.copy_location(copy.deepcopy(cands[ch.id]), ch)
+                    if isinstance(val, list):
+                        val[idx] = new
+                    else:
+                        setattr(node, field, new)
+                    k += 1
+                    continue
+                visit(ch, shadow)
+    visit(tree, set())
+    return k
 
 
 def _all_names(fn) -> Set[str]:
@@ -1371,10 +1445,14 @@ class Normalizer:
         self.pure_temps = 0
         self.restyled = 0
         self.helpers_inlined = 0
+        self.constants_folded = 0
         self.param_renames: Dict[str, Dict[str, str]] = {}  # function simple name -> {current kw: reference kw}
 
     def module(self, stem: str, tree: ast.Module):
         self.unflipped += _unflip_ifs(tree)
+        mod_entry = self.ref.get(f"{stem}:<module>")
+        if mod_entry is not None:
+            self.constants_folded += _fold_new_module_constants(tree, set(mod_entry["names"]))
         if INLINE_HELPERS and self.ref:
             for _ in range(2):
                 n_ = _inline_new_helper_calls(tree, stem, self.ref)
